@@ -151,6 +151,11 @@ def repetition_caps(prog, rep, RID):
                                               isinstance(n_.args[0], (_ast.GeneratorExp, _ast.ListComp)) for n_ in _ast.walk(_ast.parse(ov, mode="eval"))):
                     # an ignored edge shared by several cycles is crossed once per traversal of each of them: its traversals add up over the
                     # non-ignored edges around it, so the largest single cap (max over the collection) is below what an optimal walk may need
+                    # (only when that aggregate enters additively: `|E| * max(..)` dominates the sum and is not this defect)
+                    from sa.poly import to_poly as _tp2
+                    _pl = _tp2(_ast.parse(ov, mode="eval").body)
+                    if any(len(m_) > 1 and any("max(" in a_ or "min(" in a_ for a_ in m_) for m_ in _pl.t):
+                        raise AnalysisError(f"{cname}.__init__: cannot classify the cap `{ov[:80]}` given to ignored edges (a product with a max / min aggregate)")
                     rep.violation(RID, key + ":ignored-values", f"the cap of the ignored edges `{ov[:160]}` takes the largest (max / min) of the other caps, not their sum: an ignored edge "
                                   "shared by several cycles is crossed as often as all of them together (s->a, a->b ignored, b->c->a 5 times and b->d->a 5 times: "
                                   "a->b is crossed 11 times), so optimal walks are cut off and a worse decomposition is reported as optimal", g.loc(src))
